@@ -385,6 +385,21 @@ Section Proofs.
     rewrite Nat.sub_diag. cbn [outputs step]. rewrite (run_own h1 f c s H). reflexivity.
   Qed.
 
+  (* a scan writes nothing *)
+  Lemma scan_no_effect (f : list scanner) c inp : fst (step f (OScan c inp)) = f.
+  Proof. cbn [step]. destruct (nth_error f c); reflexivity. Qed.
+
+  (* repeatability: the same input scanned again by the same clone gives the same result, whatever the other
+     clones did and whatever was scanned in between, as long as the clone itself was not reconfigured *)
+  Lemma scan_repeatable (f : list scanner) c s inp h h3 :
+    nth_error f c = Some s -> own_ops c h = [] ->
+    nth_error (outputs f (OScan c inp :: h ++ OScan c inp :: h3)) 0
+    = nth_error (outputs f (OScan c inp :: h ++ OScan c inp :: h3)) (S (length h)).
+  Proof.
+    intros H E. cbn [outputs step]. rewrite H. cbn [nth_error].
+    rewrite (scan_result_own f h c inp h3 s H), E. reflexivity.
+  Qed.
+
   (* ---------------------------------------------------------------- the closed form: lineage *)
   Notation nfam_r := (@nfam_r params udata input).
   Notation lineage_r := (@lineage_r params udata input).
